@@ -50,7 +50,8 @@ func main() {
 		Rule: "programs: grammar-directed generator (well- and ill-typed by construction: it is type-blind), hand-written programs with recursion, duplicates, gotos, functional subroutines, `error;`, every example and corpus file; " +
 			"call-graph programs (2-7 user subroutines calling each other at random incl. cycles, callers outside cycles, unused ones, calls from several Fastly subroutines, scope annotations, functional subroutines, scope-restricted statements, used/unused tables, ACLs, backends) built as one text block per declaration; " +
 			"include graphs: ALL digraphs over up to three module files (missing, self, 2-cycle, 3-cycle, diamond, chain) with the include at top level, inside a subroutine, and inside nested if / else / switch-case blocks of the included module, each with three fillings, also behind a sibling block and three blocks deep; Fastly managed snippets in the linter context: scoped snippets whose order matters (declare / use / use) under four priority sets and all six insertion orders, and `snippet::name` includes that are plain, missing, self-including and mutually including at the top of a snippet and inside its blocks, from a subroutine, a block, a module and the root. " +
-			"The call-graph programs also declare a Fastly subroutine twice (second declaration with callees of its own) and a user subroutine twice (plain or functional second definition with a neutral body and the same annotation; a name that is declared more than once is compared without its position). " +
+			"The call-graph programs also declare a Fastly subroutine twice (second declaration with callees of its own) and a user subroutine twice (plain or functional second definition with a neutral body and the same annotation; a name that is declared more than once is compared without its position), use regex capture variables (in conditions, plain statements and functional returns), call a plain subroutine in function position and a functional one with a call statement. " +
+			"A file-resolver family lints a small service from the file system through resolver.NewFileResolvers 40 times for five include-path lists, with a module of one name next to the main file and in the include paths. " +
 			"Monitors: panic guard / worker death / include-load budget (>10000 module loads for a <=4-file graph = non-terminating); repeat monitor (every program linted 8x (hand-written and snippet programs 24x) in fresh contexts in one process - Go randomises map iteration per range statement - " +
 			"multisets of (rule, severity, file, line, position, message) must be equal); permutation monitor (random permutations of the top-level subroutine declarations; multisets with positions mapped to (subroutine name, statement ordinal) must be equal). " +
 			"non-trivial = program with >=1 diagnostic; distinct by program text",
@@ -245,6 +246,7 @@ func genCases(g *fw.GenCtx) {
 	for _, sc := range snippetCases() {
 		g.Emit("snippets", sc)
 	}
+	g.Emit("fileresolver", lcase{Reps: 40})
 	for k := 0; k < g.Pick(120, 3000); k++ {
 		g.Emit("gen", lcase{Seed: g.Rand.Int63(), N: 20, Reps: 8, Perms: g.Pick(4, 12)})
 	}
@@ -487,6 +489,8 @@ func run(c fw.Case) fw.Outcome {
 		if c.Kind == "hand" {
 			oc.Sample = map[string]any{"source": lc.Source}
 		}
+	case "fileresolver":
+		runFileResolver(&oc, lc.Reps)
 	case "snippets":
 		curSnips = buildSnippets(lc)
 		repeatMonitor(&oc, lc.Main, lc.Mods, lc.Reps, "snippets:"+lc.Shape, map[string]any{"main": lc.Main, "scoped": lc.Scoped, "include_snippets": lc.IncSnip, "shape": lc.Shape})
